@@ -223,9 +223,11 @@ static void gen_set(char *dst, size_t cap, hwloc_const_bitmap_t universe) {
   hex_of_set(dst, cap, s); hwloc_bitmap_free(s);
 }
 
+/* force >= 0: take that value for the op selector (scenario skeletons), -1: random */
+static int force_r = -1, force_focus = 0;
 static void gen_op(char *line, size_t cap) {
   char a[600], b[600], h1[64], h2[64];
-  unsigned r = rng_below(100);
+  unsigned r = force_r >= 0 ? (unsigned) force_r : rng_below(100);
   hwloc_obj_t root = hwloc_get_root_obj(topo);
   unsigned id = rng_below(nobjs);
   if (r < 12) {
@@ -249,10 +251,28 @@ static void gen_op(char *line, size_t cap) {
     snprintf(line, cap, "OP subtype %u %s", id, rng_chance(20) ? "-" : h1);
   } else if (r < 57) {
     hexs(h1, names[rng_below(5)]);
+    /* bias: Groups, children of Groups, and parents/children of objects that already own Misc (level merges must re-home them) */
+    if (force_focus || rng_chance(60)) for (int k = 0; k < 12; k++) {
+      unsigned r2 = rng_below(nobjs); hwloc_obj_t o = objs[r2];
+      if (o->type == HWLOC_OBJ_GROUP || (o->parent && (o->parent->type == HWLOC_OBJ_GROUP || o->parent->misc_arity)) || (o->first_child && o->first_child->misc_arity)
+          || (o->arity == 1) || (o->parent && o->parent->arity == 1)) { id = r2; break; }
+    }
     snprintf(line, cap, "OP misc %u %s", id, h1);
   } else if (r < 72) {
     int bynode = rng_chance(25);
     gen_set(a, sizeof a, bynode ? root->complete_nodeset : root->complete_cpuset);
+    if (force_focus) bynode = 0;
+    if (!bynode && (force_focus || rng_chance(45))) {
+      /* keep exactly one normal child of some object (its level may then be merged with the child's), optionally with everything outside it */
+      hwloc_obj_t p = objs[rng_below(nobjs)]; for (int k = 0; k < 12 && (p->arity < 2 || !p->cpuset); k++) p = objs[rng_below(nobjs)];
+      if (force_focus) for (unsigned k = 0; k < nobjs; k++) { hwloc_obj_t g = objs[(k + id) % nobjs]; if (g->type == HWLOC_OBJ_GROUP && g->arity >= 2 && g->cpuset) { p = g; break; } }
+      if (p->arity >= 2 && p->cpuset) {
+        hwloc_bitmap_t s = hwloc_bitmap_alloc();
+        if (rng_chance(50)) hwloc_bitmap_andnot(s, root->cpuset, p->cpuset);
+        hwloc_bitmap_or(s, s, p->children[rng_below(p->arity)]->cpuset);
+        hex_of_set(a, sizeof a, s); hwloc_bitmap_free(s);
+      }
+    }
     unsigned long fl = rng_below(32); if (bynode) fl |= 8; else fl &= ~8UL; if (rng_chance(3)) fl |= 64;
     snprintf(line, cap, "OP restrict %s %lu", a, fl);
   } else if (r < 87) {
@@ -271,7 +291,7 @@ static void gen_op(char *line, size_t cap) {
     }
     hex_of_set(a, sizeof a, hwloc_bitmap_iszero(c) && n ? NULL : c);
     hex_of_set(b, sizeof b, n);
-    snprintf(line, cap, "OP group %s %s %d -", a, b, rng_chance(25));
+    snprintf(line, cap, "OP group %s %s %d -", a, b, force_focus ? 0 : rng_chance(25));
     hwloc_bitmap_free(c); hwloc_bitmap_free(n);
   } else if (r < 89) {
     snprintf(line, cap, "OP groupfree");
@@ -341,6 +361,7 @@ int main(int argc, char **argv) {
     if (rng_chance(20)) flags |= 128 << rng_below(3);
     strcpy(filters, "--------------------");
     unsigned fm = rng_below(6);
+    if (rng_chance(30)) fm = 2;                          /* Misc and I/O kept: the special-children code paths need them */
     if (fm == 0) { for (int i = 0; i < 20; i++) filters[i] = '0'; filters[13] = '-'; }
     else if (fm == 1) { for (int i = 0; i < 20; i++) filters[i] = '2'; }
     else if (fm == 2) { for (int i = 16; i < 20; i++) filters[i] = '0'; }
@@ -350,8 +371,18 @@ int main(int argc, char **argv) {
     if (load_case(kind, flags, filters, arg) < 0) { fprintf(fops, "LOADFAIL\n"); fprintf(fc, ".\n"); continue; }
     if (nobjs > 400) { fprintf(fops, "LOADFAIL\n"); fprintf(fc, ".\n"); continue; }   /* keep dumps small */
     fprintf(fops, "OP load\n"); fprintf(fc, ".\n"); after(0, 0);
-    unsigned nsteps = 2 + rng_below(9);
+    unsigned nsteps = 2 + rng_below(rng_chance(30) ? 20 : 9);
+    /* scenario skeleton (1 history in 4): insert a mergeable Group, hang Misc objects around it, restrict so that its level merges,
+     * then go on randomly; every step is still an ordinary OP line */
+    int scen[8], nscen = 0;
+    if (rng_chance(25)) {
+      scen[nscen++] = 75;
+      for (unsigned k = 0, m = 2 + rng_below(3); k < m; k++) scen[nscen++] = 50;
+      scen[nscen++] = 60;
+      if (nsteps < (unsigned) nscen + 1) nsteps = nscen + 1;
+    }
     for (unsigned s = 0; s < nsteps; s++) {
+      force_r = s < (unsigned) nscen ? scen[s] : -1; force_focus = force_r >= 0 && rng_chance(85);
       gen_op(line, sizeof line);
       fprintf(fops, "%s\n", line); fprintf(fc, ".\n"); fflush(fops);
       exec_op(line);
